@@ -176,7 +176,7 @@ def reports(root):
         if len(outs) != 1 or outs[0][1] is not None:
             raise Unsupported('statements before the line loop branch or return')
         head = outs[0][0]
-        primes = [(c, z3.Const(c.decl().name() + "'", c.sort())) for c in entry_consts]
+        primes = [(c, z3.Const(c.decl().name() + '__other', c.sort())) for c in entry_consts]
         # which mutable attributes does the loop body (incl. decode_line) read?
         dl = extract.get_function(PP, CLS + '.decode_line', root)
         reads = set()
@@ -208,6 +208,7 @@ def reports(root):
         ex.entry = it.copy()
         ex.assign(loop.target, line, it)
         paths = ex.exec_block(loop.body, it)
+        per_attr = {f: [] for f in sorted(reads & set(M)) if f in U}
         for k, (s2, oc) in enumerate(paths):
             clocks = []
             seen = set()
@@ -225,7 +226,7 @@ def reports(root):
                 if z3.is_const(t) and t.decl().kind() == z3.Z3_OP_UNINTERPRETED and t.decl().name().startswith('clock!'):
                     clocks.append(t)
                 stack.extend(t.children())
-            subs = [(c, z3.Const(c.decl().name() + "'", c.sort())) for c in u_consts + clocks]
+            subs = [(c, z3.Const(c.decl().name() + '__other', c.sort())) for c in u_consts + clocks]
             pc = z3.And(*s2.pc) if s2.pc else z3.BoolVal(True)
             pc2 = z3.substitute(pc, *subs) if subs else pc
             vcs.append(VC('%s.process_page/flow-control#%d@L%d' % (CLS, k, loop.lineno), 'flow-control', [pc], pc2, loop.lineno, rep.name,
@@ -234,17 +235,24 @@ def reports(root):
                 t2 = z3.substitute(t, *subs) if subs else t
                 vcs.append(VC('%s.process_page/flow-output#%d.%d@L%d' % (CLS, k, j, loop.lineno), 'flow-output', [pc, pc2], t == t2, loop.lineno, rep.name,
                               'transcription / carried LM state after the iteration do not depend on %s or the clock' % (U,)))
+            for f in per_attr:
+                # does the value self.<f> had at the head of the loop (left over from the previous page) reach a branch
+                # condition or an output of this iteration?
+                subs_f = [(c, z3.Const(c.decl().name() + '__other', c.sort())) for c in heap_consts(it, [f])]
+                pc_f = z3.substitute(pc, *subs_f) if subs_f else pc
+                same = [t == (z3.substitute(t, *subs_f) if subs_f else t) for t in outs_terms]
+                per_attr[f].append(z3.Implies(pc, z3.And(pc_f, *same)))
             if oc is not None and oc[0] not in (Outcome.CONTINUE,):
                 raise Unsupported('loop body leaves the loop (%s)' % oc[0])
         # every history-dependent attribute that is read must be shown not to flow: that is what the flow obligations do;
         # a carried attribute that is NOT reset is the C08 defect:
-        for f in sorted(reads & set(M)):
-            if f in U:
-                vc = VC('%s.process_page/reset:%s@L%d' % (CLS, f, loop.lineno), 'reset', list(head.pc), z3.BoolVal(False), loop.lineno, rep.name,
-                        'self.%s is read by the line loop before it is written but still holds the value from the previous page' % f)
-                vc.result, vc.solver, vc.ms = 'sat', 'term-dependence', 0
-                vc.model = {'attribute': f, 'depends_on': 'entry value of self.%s' % f}
-                vcs.append(vc)
+        for f, goals in per_attr.items():
+            vc = VC('%s.process_page/reset:%s@L%d' % (CLS, f, loop.lineno), 'reset', [], z3.And(*goals) if goals else z3.BoolVal(True),
+                    loop.lineno, rep.name,
+                    'self.%s still holds the value from the previous page at the head of the line loop and is read there: that value '
+                    'reaches neither a branch condition nor a transcription / carried LM state (else it must be reset per page)' % f)
+            vc.model = {'attribute': f, 'depends_on': 'entry value of self.%s' % f}
+            vcs.append(vc)
         for v in vcs:
             for i, g in enumerate([v.goal]):
                 if v.result is None and z3.is_true(z3.simplify(g)):
